@@ -154,3 +154,34 @@ CONTRACTS[F + "sparse_hellinger"] = dict(
     returns="real", ensures=["unchanged(data1) and unchanged(data2)"],
     loops={"for#1": dict(invariant=["True"])},
 )
+
+
+# ---------------------------------------------------------------- input generators for the run-time cross-check / replay search
+def _gen_sparse_pair(rng):
+    import numpy as np
+    def one():
+        n = rng.choice([0, 1, 2, 3, 4])
+        idx = sorted(rng.sample(range(8), n))
+        return np.array(idx, dtype=np.int32), np.array([rng.choice([0.0, 1.0, 2.0, 0.5, 3.0]) for _ in idx], dtype=np.float32)
+    i1, d1 = one()
+    i2, d2 = one()
+    return dict(ind1=i1, data1=d1, ind2=i2, data2=d2)
+
+
+def _gen_dense_pair(rng):
+    import numpy as np
+    n = rng.choice([1, 2, 3, 5])
+    x = np.array([rng.choice([0.0, 1.0, 2.0, 0.5]) for _ in range(n)], dtype=np.float64)
+    y = np.array([rng.choice([0.0, 1.0, 2.0, 0.5]) for _ in range(n)], dtype=np.float64)
+    x[rng.randrange(n)] += 1.0
+    y[rng.randrange(n)] += 1.0
+    return dict(x=x, y=y)
+
+
+for _f in ("sparse_sum", "sparse_mul", "dense_union", "sparse_hellinger"):
+    CONTRACTS[F + _f]["gen_all"] = _gen_sparse_pair
+for _f in ("hellinger", "total_variation", "jensen_shannon_divergence", "symmetric_kl_divergence"):
+    CONTRACTS[F + _f]["gen_all"] = _gen_dense_pair
+CONTRACTS[F + "kantorovich1d"]["gen_all"] = lambda rng: dict(_gen_dense_pair(rng), p=rng.choice([1, 2, 3]))
+CONTRACTS[F + "arr_union"]["gen_all"] = lambda rng: (lambda d: dict(ar1=d["ind1"], ar2=d["ind2"]))(_gen_sparse_pair(rng))
+CONTRACTS[F + "arr_intersect"]["gen_all"] = lambda rng: (lambda d: dict(ar1=d["ind1"], ar2=d["ind2"]))(_gen_sparse_pair(rng))
